@@ -207,7 +207,8 @@ def conv_case(prog):
         os.path.join(scratch_dir(), "c18-conv-%d" % os.getpid())
     os.makedirs(tmpdir, exist_ok=True)
     try:
-        p = os.path.join(tmpdir, "a.dat")
+        stem = prog.get("stem", "a")        # file names may hold further dots ("blobs.v2.txt")
+        p = os.path.join(tmpdir, stem + ".dat")
         write_opf(p, ids, labels, feats)
         exp_feats = [[float(np.float32(v)) for v in r] for r in feats]
         exp_labels = [l - 1 for l in labels]
@@ -215,7 +216,7 @@ def conv_case(prog):
         for ext, fn, ld in (("txt", converter.opf2txt, loader.load_txt),
                             ("csv", converter.opf2csv, loader.load_csv),
                             ("json", converter.opf2json, loader.load_json)):
-            o = os.path.join(tmpdir, "a." + ext)
+            o = os.path.join(tmpdir, stem + "." + ext)
             try:
                 fn(p, o)
                 data = ld(o)
@@ -276,6 +277,9 @@ def conv_programs(shard, seed):
             labels = [l + 1 for l in lab]
             for ids in (list(range(n)), [7, 3, 11, 5][:n], [16777217, 903420581, 2147483647, 33554433][:n]):
                 yield {"kind": "conv", "ids": ids, "labels": labels, "features": feats}
+            if si % 3 == 0:
+                yield {"kind": "conv", "ids": list(range(n)), "labels": labels, "features": feats,
+                       "stem": "blobs.v2"}
 
 
 def parser_case(prog):
